@@ -17,6 +17,7 @@ type yenCase struct {
 	S, T int // node indices; index n = an ID absent from the graph
 	K    int
 	Cost vk.F
+	View int // viewFull, viewWeightOnly or viewPlain
 }
 
 const (
@@ -26,8 +27,13 @@ const (
 
 func checkYen(c yenCase) *vk.Failure {
 	vk.Sample("yen", c)
-	m := newModel(c.nodeIDs(), c.allArcs(), c.Undir)
-	g := buildGraph(c.Kind, m)
+	real := newModel(c.nodeIDs(), c.allArcs(), c.Undir)
+	m := real
+	if c.View == viewPlain {
+		m = newModel(c.nodeIDs(), unitArcs(c.allArcs()), c.Undir)
+	}
+	g := viewOf(c.View, buildGraph(c.Kind, real), c.Undir)
+	vk.Class("yen-" + viewNames[c.View%numViews])
 	n := m.n
 	s, t := c.S, c.T
 	if s < 0 || s > n || t < 0 || t > n {
@@ -88,7 +94,7 @@ func checkYen(c yenCase) *vk.Failure {
 		vk.Class("yen=all-paths")
 	}
 	if len(ws) >= 2 {
-		vk.NonTrivial("yen", m.hash, s, t, c.K, cost, c.Kind)
+		vk.NonTrivial("yen", m.hash, s, t, c.K, cost, c.Kind, c.View)
 	}
 
 	var got [][]graph.Node
@@ -222,6 +228,7 @@ func drawYen(t *rapid.T) yenCase {
 			}
 		}
 	}
+	c.View = rapid.SampledFrom([]int{viewFull, viewFull, viewFull, viewWeightOnly, viewPlain}).Draw(t, "view")
 	c.K = rapid.SampledFrom([]int{-1, -1, 0, 1, 2, 2, 3, 5, 5, 50}).Draw(t, "k")
 	c.Cost = vk.F(rapid.SampledFrom([]float64{0, 0.5, 1, 3, math.Inf(1), math.Inf(1)}).Draw(t, "cost"))
 	return c
